@@ -450,4 +450,7 @@ for _n in (2, 3):
                      # (432 paths, 1296 obligations), n = 2 with merkle root about 8 min (1296 paths, 3888 obligations);
                      # inside the 16-process pool of verif.check the same jobs run 3-4 times slower; n = 3 did not finish
                      # within 25 minutes stand-alone (see notes/C12_C13.md)
-                     tiers=("thorough",))
+                     # n = 3: the final self-verification is beyond zn_ring within any budget tried (paths end `undecided`, and
+                     # with a wall budget the solver returns models that do not replay), so the 3-signer SESSION is a
+                     # run-time contract only; 3-signer key aggregation is proved above
+                     tiers=("thorough",) if _n == 2 else ("runtime-only",))
